@@ -289,6 +289,16 @@ let () =
     | [e; iv; vals] -> show (drun1 (z_of_hex e) (z_of_hex iv) (zlist_of_string vals))
     | _ -> failwith "dk1")
 
+(* ---------------- C05 ---------------- *)
+let () =
+  (* hist <qi> <mrr> <k.x.y/k.x.y/...>: exe_params after every operation of the history *)
+  reg "hist" (fun a -> match a with
+    | [qi; mrr; ops] ->
+      let h = if ops = "_" then [] else List.map (fun t -> match String.split_on_char '.' t with
+          | [k; x; y] -> ((z_of_hex k, z_of_hex x), z_of_hex y) | _ -> failwith "hist op") (String.split_on_char '/' ops) in
+      "exe=" ^ String.concat "|" (List.map (fun l -> String.concat "," (List.map hz l)) (hist_exes (z_of_hex qi) (z_of_hex mrr) h))
+    | _ -> failwith "hist")
+
 let () =
   (try
     while true do
